@@ -2,8 +2,9 @@
    Model of lib/python/pyflyby/_importdb.py: _find_etc_dirs, _get_env_var, _get_python_path,
    _ancestors_on_same_partition, _expand_tripledots; _file.py: Filename (abspath + safety check),
    Filename.list, Filename.ancestors, expand_py_files_from_args.
-   The file system is a finite tree without symbolic links (so realpath = abspath); st_dev is a
-   field of every node.  No proofs here. *)
+   The file system is a finite tree of regular files, directories and symbolic links (to files or
+   directories, relative or absolute, dangling or looping); st_dev is a field of every file and
+   directory.  os.stat / os.path.realpath are modelled by one component-wise resolver.  No proofs here. *)
 From Coq Require Import NArith List Bool String.
 From Verif Require Import Base.Chars Base.StrX.
 Import ListNotations.
@@ -62,7 +63,8 @@ Variable C : Type.                       (* content of a regular file *)
 
 Inductive tree : Type :=
 | File (dev : N) (c : C)
-| Dir (dev : N) (es : list (name * tree)).
+| Dir (dev : N) (es : list (name * tree))
+| Link (target : str).                    (* os.readlink *)
 
 Fixpoint assoc_name {B} (n : name) (es : list (name * B)) : option B :=
   match es with
@@ -70,30 +72,71 @@ Fixpoint assoc_name {B} (n : name) (es : list (name * B)) : option B :=
   | (m, v) :: r => if str_eqb n m then Some v else assoc_name n r
   end.
 
+(* the node at a path, WITHOUT following symbolic links (a link in the middle: nothing) *)
 Fixpoint lookup (t : tree) (p : path) : option tree :=
   match p with
   | [] => Some t
   | n :: r => match t with
-              | File _ _ => None
               | Dir _ es => match assoc_name n es with
                             | Some s => lookup s r
                             | None => None
                             end
+              | _ => None
               end
   end.
 
+(* ---------- path resolution (the kernel's walk for os.stat; posixpath._joinrealpath) ---------- *)
+(* state: `cur` = the link-free path reached so far, `rest` = components still to walk.
+   A symbolic link is replaced by the components of its target (absolute target: restart at "/");
+   each replacement costs one unit of fuel (Linux: at most 40 links in one resolution, ELOOP after).
+   strict = true : a missing component is an error (os.stat: ENOENT / ENOTDIR / ELOOP -> None);
+   strict = false: a missing component is kept as it is (os.path.realpath(strict=False)); None then
+                   only means a link loop (outside the domain of the check). *)
+Definition max_links : nat := 40.
+Fixpoint resolve (strict : bool) (fuel : nat) (t : tree) : path -> list name -> option path :=
+  match fuel with
+  | O => fun _ _ => None
+  | S f =>
+      fix go (cur : path) (rest : list name) {struct rest} : option path :=
+        match rest with
+        | [] => Some cur
+        | n :: r =>
+            if is_nil n || str_eqb n s_dot then go cur r
+            else if str_eqb n s_dotdot then go (removelast cur) r
+            else match lookup t (cur ++ [n]) with
+                 | Some (Link tg) =>
+                     resolve strict f t (if starts_with s_slash tg then [] else cur)
+                             (split_on c_slash tg ++ r)
+                 | Some _ => go (cur ++ [n]) r
+                 | None => if strict then None else go (cur ++ [n]) r
+                 end
+        end
+  end.
+
+(* os.stat(path): the file or directory the path denotes after following every link *)
+Definition stat (t : tree) (p : path) : option tree :=
+  match resolve true max_links t [] p with
+  | Some r => match lookup t r with
+              | Some (Link _) => None
+              | x => x
+              end
+  | None => None
+  end.
+(* os.path.realpath(path) *)
+Definition realpath (t : tree) (p : path) : option path := resolve false max_links t [] p.
+
 Definition isdir (t : tree) (p : path) : bool :=
-  match lookup t p with Some (Dir _ _) => true | _ => false end.
+  match stat t p with Some (Dir _ _) => true | _ => false end.
 Definition isfile (t : tree) (p : path) : bool :=
-  match lookup t p with Some (File _ _) => true | _ => false end.
+  match stat t p with Some (File _ _) => true | _ => false end.
 Definition exists_ (t : tree) (p : path) : bool :=
-  match lookup t p with Some _ => true | None => false end.
+  match stat t p with Some _ => true | None => false end.
 (* _get_st_dev:  try: return os.stat(str(filename)).st_dev / except OSError: return None *)
 Definition dev_of (t : tree) (p : path) : option N :=
-  match lookup t p with
+  match stat t p with
   | Some (File d _) => Some d
   | Some (Dir d _) => Some d
-  | None => None
+  | _ => None
   end.
 
 (* ---------- os.path.abspath (posixpath.normpath after join with the cwd) ---------- *)
@@ -202,36 +245,57 @@ Fixpoint expand_tripledots (t : tree) (cwd : path) (pathnames : list str) (targe
 Definition skip_name (n : name) : bool :=
   negb (safe_name n) || starts_with s_dot n || str_eqb n s_pycache.
 Definition is_py (n : name) : bool := ends_with s_py n.
-Definition entry_leb {B} (a b : name * B) : bool := str_leb (fst a) (fst b).
 
-Fixpoint walk (pre : path) (t : tree) {struct t} : list path :=
-  match t with
-  | File _ _ => [pre]
-  | Dir _ es =>
-      let fix go (es : list (name * tree)) : list (name * list path) :=
-        match es with
-        | [] => []
-        | (n, sub) :: r =>
-            (n, if skip_name n then []
-                else match sub with
-                     | File _ _ => if is_py n then [pre ++ [n]] else []
-                     | Dir _ _ => walk (pre ++ [n]) sub
-                     end) :: go r
-        end in
-      List.concat (map snd (isort entry_leb (go es)))
+(* the entries of one directory, in sorted order.  Every test (isfile / isdir) is an os.stat of the
+   entry's own path, so a symbolic link counts as what it points to; a dangling or looping link is
+   neither and is ignored.  `rec` = the walk of a sub-directory. *)
+Fixpoint collect (rec : path -> option (list path)) (t : tree) (pre : path) (names : list name)
+  : option (list path) :=
+  match names with
+  | [] => Some []
+  | n :: r =>
+      match (if skip_name n then Some []
+             else match stat t (pre ++ [n]) with
+                  | Some (File _ _) => Some (if is_py n then [pre ++ [n]] else [])
+                  | Some (Dir _ _) => rec (pre ++ [n])
+                  | _ => Some []
+                  end),
+            collect rec t pre r with
+      | Some a, Some b => Some (a ++ b)
+      | _, _ => None
+      end
   end.
+
+(* fuel = nesting depth still allowed; None = out of fuel (a link to an ancestor directory makes the
+   real walk run until ELOOP: outside the domain, excluded by the theorems) *)
+Fixpoint walk (fuel : nat) (t : tree) (pre : path) : option (list path) :=
+  match fuel with
+  | O => None
+  | S f => match stat t pre with
+           | Some (Dir _ es) => collect (walk f t) t pre (isort str_leb (map fst es))
+           | _ => Some []
+           end
+  end.
+Definition walk_fuel : nat := 64.
 
 (*  for pathname in reversed(pathnames):
         if pathname.isfile: stack.append((pathname, True))
         elif pathname.isdir: stack.append((pathname, False))
         else: on_error(pathname)                                   # default: ignored *)
-Definition expand_arg (t : tree) (p : path) : list path :=
-  match lookup t p with
-  | Some (File _ _) => [p]
-  | Some (Dir d es) => walk p (Dir d es)
-  | None => []
+Definition expand_arg (t : tree) (p : path) : option (list path) :=
+  match stat t p with
+  | Some (File _ _) => Some [p]
+  | Some (Dir _ _) => walk walk_fuel t p
+  | _ => Some []
   end.
-Definition expand_py_files (t : tree) (ps : list path) : list path := flat_map (expand_arg t) ps.
+Fixpoint expand_py_files (t : tree) (ps : list path) : option (list path) :=
+  match ps with
+  | [] => Some []
+  | p :: r => match expand_arg t p, expand_py_files t r with
+              | Some a, Some b => Some (a ++ b)
+              | _, _ => None
+              end
+  end.
 
 (* ---------- _get_env_var ---------- *)
 (*  value = list(filter(None, os.environ.get(env_var_name, '').split(':')))
@@ -272,7 +336,8 @@ Fixpoint stable_unique (seen : list path) (l : list path) : list path :=
 Inductive pp_result :=
 | PPOk (files : list path)
 | PPValueError (component : str)       (* "components should start with / or ./ or ~/ or .../" *)
-| PPUnsafe.                            (* UnsafeFilenameError from Filename(explicit entry) *)
+| PPUnsafe                             (* UnsafeFilenameError from Filename(explicit entry) *)
+| PPFuel.                              (* model out of fuel (directory nesting deeper than walk_fuel) *)
 
 (* ---------- _get_python_path ---------- *)
 Definition get_python_path (t : tree) (cwd : path) (home : str) (value : option str)
@@ -284,7 +349,10 @@ Definition get_python_path (t : tree) (cwd : path) (home : str) (value : option 
        | None =>
            match expand_tripledots t cwd (map (expanduser home) pathnames) target_dir with
            | None => PPUnsafe
-           | Some ps => PPOk (expand_py_files t (stable_unique [] ps))
+           | Some ps => match expand_py_files t (stable_unique [] ps) with
+                        | Some files => PPOk files
+                        | None => PPFuel
+                        end
            end
        end.
 
@@ -309,3 +377,4 @@ End Tree.
 
 Arguments File {C}.
 Arguments Dir {C}.
+Arguments Link {C}.
